@@ -15,6 +15,7 @@ DECIDED = [
     "DRAIN: both hand-over queues are provably empty (or drained into a consumer) between the join and the release; no local batch list is dropped while it may hold items",
     "CANCEL-NODE: each cancellation record is enqueued on every path after allocation and released after being consumed",
     "BALANCE: no function returns holding the mutex; the wait is entered with the mutex held",
+    "NOBLOCK: nothing that can invoke a task function (inner cancel/run-all/clean-up) and no client entry point runs while the hand-over mutex is held",
 ]
 NOT_DECIDED = ["which interleaving occurs; exactly-once as a run-time fact (only the schedule-independent protocol shape is decided)",
                "latency of shutdown (the unlocked exit-flag store can delay a wake-up by the wait timeout; the property bounds no latency)"]
@@ -246,6 +247,7 @@ def analyse(ctx, replace=None, only=None):
     for name in ("s_thread_fn", "s_destroy_callback"):
         f = fns[name]
         consume_cancel_records(R, f)
+    noblock(R, fns)
 
 
 def launch_state(f):
@@ -412,30 +414,84 @@ def batch_lists(R, f):
 
 
 def consume_cancel_records(R, f):
-    """every cancellation record popped is released (after its task was cancelled on the inner scheduler)"""
-    cancels = [e for e in f.calls({"aws_task_scheduler_cancel_task", "aws_task_run"})]
-    recs = f.field_accesses(rec="cancellation_node", field="task_to_cancel", modes=("r",))
-    if not recs:
-        if f.name == "s_thread_fn":
-            R.broken("s_thread_fn no longer reads cancellation_node.task_to_cancel")
-        return
+    """every cancellation record taken off the cancel queue (directly, or from a local batch swapped with it) has its task
+    cancelled on the inner scheduler and is then released"""
+    fed = set()
+    for e in f.calls("aws_linked_list_swap_contents"):
+        a, b = RU.arg(f, e.node, 0), RU.arg(f, e.node, 1)
+        qa, qb = queue_of(f, a), queue_of(f, b)
+        if qa and qa[0] == "cancel_queue":
+            fed.add(argstr(f, e.node, 1))
+        if qb and qb[0] == "cancel_queue":
+            fed.add(argstr(f, e.node, 0))
+    pops = []
+    for p in f.calls({"aws_linked_list_pop_front", "aws_linked_list_pop_back"}):
+        q = queue_of(f, RU.arg(f, p.node, 0))
+        if (q and q[0] == "cancel_queue") or argstr(f, p.node, 0) in fed:
+            pops.append(p)
+    if f.name == "s_thread_fn":
+        R.require(len(pops) >= 1, "s_thread_fn: no pop from the cancellation batch found")
     dom = dominators(f)
-    for r in recs:
-        base = f.show(r.node["a"][0], alias=False)
-        rel = [e for e in f.calls("aws_mem_release") if argstr(f, e.node, 1, addr=False, alias=False) == base]
-        after = [e for e in rel if ev_dominates(f, r, e, dom)]
-        R.check(bool(after), "CANCEL-NODE", "%s:record-released-after-use" % f.name, where(f, r), "record %s released after its task is read" % base,
-                "cancellation record %s is read but never released on this path (leak)" % base)
-        for e in after:
+    for p in pops:
+        ids = {p.node["id"]}
+        tainted, et = RU.derives(f, lambda n: n.get("id") in ids and n["k"] in ("call", "ref"))
+
+        def reads_task(n):
+            for x in f.walk(n, follow_refs=True):
+                if x["k"] == "member" and x["f"] == "task_to_cancel" and et(x["a"][0]):
+                    return True
+            return False
+
+        cancels = [e for e in f.calls({"aws_task_scheduler_cancel_task", "aws_task_run"}) if any(reads_task(a) for a in e.node["a"]) and ev_dominates(f, p, e, dom)]
+        R.check(bool(cancels), "CANCEL-NODE", "%s:record-task-cancelled" % f.name, where(f, p), "the popped record's task is cancelled on the inner scheduler",
+                "a cancellation record is taken off the queue but its task is never cancelled: a task cancelled while still in the hand-over queue is never invoked")
+        rel = [e for e in f.calls("aws_mem_release") if et(RU.arg(f, e.node, 1)) and ev_dominates(f, p, e, dom)]
+        R.check(bool(rel), "CANCEL-NODE", "%s:record-released-after-use" % f.name, where(f, p), "the popped record is released",
+                "cancellation record popped but never released (leak)")
+        for e in rel:
+            bad = must_precede_all(f, cancels, e, dom)
+            R.check(not bad, "CANCEL-NODE", "%s:cancel-before-release" % f.name, where(f, e), "task read before the record is released", "record released before its task is read")
             v = RU.arg(f, e.node, 1)
             if v is not None and v["k"] == "var":
                 later = RU.dead_after(f, e, v["n"])
                 R.check(not later, "CANCEL-NODE", "%s:record-dead-after-release" % f.name, where(f, e), "no use of %s after its release" % v["n"],
                         "record %s used after release at line %s" % (v["n"], [x.line for x in later][:3]))
-    R.check(bool(cancels), "CANCEL-NODE", "%s:cancels-on-inner-scheduler" % f.name, "%s()" % f.name, "the recorded task is cancelled on the inner scheduler")
+
+
+def must_precede_all(f, A, b, dom):
+    return [a for a in A if not ev_dominates(f, a, b, dom)]
+
+
+INVOKES_TASKS = {"aws_task_scheduler_cancel_task", "aws_task_scheduler_run_all", "aws_task_scheduler_clean_up", "aws_task_run"}
+
+
+def noblock(R, fns):
+    """task functions may schedule / cancel on this scheduler: nothing that can invoke one runs under the hand-over mutex,
+    and no client entry point is called with it held (the mutex is not recursive)"""
+    client = {"aws_thread_scheduler_schedule_future", "aws_thread_scheduler_schedule_now", "aws_thread_scheduler_cancel_task", "aws_thread_scheduler_release"}
+    n = 0
+    for name, f in sorted(fns.items()):
+        ts = RU.lockset(f)
+        for e in f.all_events():
+            if e.kind != "call":
+                continue
+            c = e.node.get("callee")
+            if c in INVOKES_TASKS or c in client or c in ("aws_thread_join",) or (c is None and RU.indirect_via(f, e.node) == ("aws_task", "fn")):
+                n += 1
+                held = RU.held_at(ts, e) or set()
+                R.check(not any(h.endswith("thread_data.mutex") for h in held), "NOBLOCK", "%s:%s" % (name, c or "task->fn"), where(f, e),
+                        "called with the hand-over mutex released",
+                        "%s may invoke task functions / re-enter the scheduler while %s is held: a task that schedules or cancels from its callback deadlocks the scheduler thread" % (c or "task->fn", sorted(held)))
+    R.require(n >= 5, "only %d task-invoking call sites found in thread_scheduler.c" % n)
 
 
 MUTANTS = [
+    {"name": "drain-frees-records-without-cancelling", "file": FILE, "expect": "CANCEL-NODE",
+     "old": "        aws_task_scheduler_cancel_task(&scheduler->scheduler, cancellation_node->task_to_cancel);\n        aws_mem_release(scheduler->allocator, cancellation_node);\n    }",
+     "new": "        aws_mem_release(scheduler->allocator, cancellation_node);\n    }"},
+    {"name": "cancels-processed-under-lock", "file": FILE, "expect": "NOBLOCK",
+     "old": "        AWS_FATAL_ASSERT(!aws_mutex_unlock(&scheduler->thread_data.mutex) && \"mutex unlock failed!\");\n\n        while (!aws_linked_list_empty(&list_cpy)) {",
+     "new": "        while (!aws_linked_list_empty(&list_cpy)) {"},
     {"name": "unlock-before-push", "file": FILE, "expect": "LOCK",
      "old": "    aws_linked_list_push_back(&scheduler->thread_data.scheduling_queue, &task->node);\n    AWS_FATAL_ASSERT(!aws_mutex_unlock(&scheduler->thread_data.mutex) && \"mutex unlock failed!\");",
      "new": "    AWS_FATAL_ASSERT(!aws_mutex_unlock(&scheduler->thread_data.mutex) && \"mutex unlock failed!\");\n    aws_linked_list_push_back(&scheduler->thread_data.scheduling_queue, &task->node);"},
